@@ -167,6 +167,48 @@ func purePart(c *vlib.Cases, r *vlib.Rng, thorough bool) {
 		}
 	}
 
+	// ---- lengths: request paths of every length around the sizes buffers are made of (64, 128, 256, 512, 1024, 4096,
+	// 8192 and their neighbours), counted with and without the base path, for plain and preserve_path endpoints
+	lbases := []string{"/api/v1", "/a", "", "/engines/llama.cpp/v1"}
+	var lens []int
+	for _, k := range []int{64, 128, 256, 512, 1024, 2048, 4096, 8192} {
+		for d := -12; d <= 4; d++ {
+			lens = append(lens, k+d)
+		}
+	}
+	if thorough {
+		lens = lens[:0]
+		for l := 1; l <= 700; l++ {
+			lens = append(lens, l)
+		}
+		for _, k := range []int{1024, 2048, 4096, 8192, 16384} {
+			for d := -30; d <= 6; d++ {
+				lens = append(lens, k+d)
+			}
+		}
+	}
+	for _, b := range lbases {
+		for _, l := range lens {
+			for _, total := range []bool{false, true} {
+				n := l
+				if total {
+					n = l - len(b) // base + remaining path = l
+				}
+				if n < 2 {
+					continue
+				}
+				seg := "/" + strings.Repeat("segment/", n/8)
+				if len(seg) < n {
+					seg = seg + strings.Repeat("z", n-len(seg))
+				}
+				caseBuild(c, seg[:n], "q=1", "", prod, "http", "backend:8080", b, true, "length")
+				if !total {
+					caseBuild(c, seg[:n], "", "", prod, "http", "backend:8080", b, false, "length")
+				}
+			}
+		}
+	}
+
 	// ---- library ports: path.Clean, path.Join, url.PathUnescape, util.StripPrefix
 	m := 4000
 	if thorough {
